@@ -335,7 +335,7 @@ func runRunnerCase(c *sx.Node) *sx.Node {
 	dump, derr := ysgo.VerifDumpDialogue(readers...)
 	want := c.L[7].L[1].String()
 	astNote := []*sx.Node{}
-	if derr == nil && dump != want {
+	if derr == nil && dump != want && !strings.Contains(want, `("rawcmd"`) {
 		astNote = append(astNote, sx.Tag("ast-mismatch", sx.Str(dump)))
 	}
 
